@@ -453,6 +453,64 @@ func (w *worker) runCase(c Case) (res Result) {
 		fail("not-reusable/run2-differs", fmt.Sprintf("second RunContext on the same object with the same (fresh) inputs: first run returned %s, second %s",
 			errText(err1), errText(err2)))
 	}
+	// differential with a fresh object: after a FAILED run, the same object given benign inputs must behave like
+	// a freshly compiled one given the same inputs (a stale error / aborted flag / frame left by the failure shows here)
+	if err1 != nil && inName != "" && !p.NonTerm && !p.HostGarbage {
+		var fresh *tengo.Compiled
+		var ferr error
+		okF := plain("compile-fresh", func() {
+			s := tengo.NewScript([]byte(p.Src))
+			for n := range p.Inputs {
+				if e := s.Add(n, 1); e != nil {
+					ferr = e
+					return
+				}
+			}
+			if len(p.Mods) > 0 {
+				mm := tengo.NewModuleMap()
+				for n, src := range p.Mods {
+					mm.AddSourceModule(n, []byte(src))
+				}
+				s.SetImports(mm)
+			}
+			fresh, ferr = s.Compile()
+		})
+		if okF && ferr == nil && fresh != nil {
+			okSet := plain("set-benign", func() {
+				for n := range p.Inputs {
+					if e := comp.Set(n, 1); e != nil {
+						fail("not-reusable/set-failed", "Compiled.Set of an input variable failed after the run: "+e.Error())
+					}
+				}
+			})
+			if !okSet {
+				if res.NoReturn != "" {
+					res.Class = "noreturn"
+				}
+				return
+			}
+			errU, ok := run("run3", comp)
+			if res.NoReturn != "" {
+				res.Class = "noreturn"
+				return
+			}
+			if !ok {
+				return
+			}
+			errF, ok := run("run3-fresh", fresh)
+			if res.NoReturn != "" {
+				res.Class = "noreturn"
+				return
+			}
+			if !ok {
+				return
+			}
+			if (errU == nil) != (errF == nil) || (errU != nil && firstLine(errU.Error()) != firstLine(errF.Error())) {
+				fail("not-reusable/run-after-failure-differs-from-fresh-object", fmt.Sprintf("after a failed run, with every input set to 1: the used object returned %s, a freshly compiled one %s",
+					errText(errU), errText(errF)))
+			}
+		}
+	}
 	var clone *tengo.Compiled
 	if !plain("clone", func() { clone = comp.Clone() }) {
 		if res.NoReturn != "" {
